@@ -73,6 +73,11 @@ def generate(ctx, escalate=False):
                 b = bytes([0x40 | (b[0] & 0x3F)]) + b[1:]      # right version so that the parser is reached
         else:
             m = G.gen_msg(rng, big=rng.random() < 0.003, valid_len=rng.random() < 0.7)
+            if rng.random() < 0.15 and m[1] != 0:
+                # an OSCORE option with a structured value as the LAST bytes of the message (debug printing decodes it)
+                typ, code, mid, tok, opts, pl = m
+                opts = [o for o in opts if o[0] < 9] + [(9, oscore_value(rng))]
+                m = (typ, code, mid, tok, opts, b"")
             b = G.encode(proto, *m)
             if c < 0.85:
                 for _ in range(rng.choice([1, 1, 2, 3, 4])):
@@ -85,6 +90,43 @@ def generate(ctx, escalate=False):
 SCENARIOS = ["idle", "obs", "blk", "blk0", "cli"]
 
 
+def oscore_value(rng):
+    """a (possibly truncated / inconsistent) compressed COSE object: flag byte n | k<<3 | h<<4, Partial IV, [s, kid context], kid"""
+    n = rng.choice([0, 1, 2, 5, 6, 7])
+    k = rng.randint(0, 1)
+    h = rng.randint(0, 1)
+    v = bytes([n | k << 3 | h << 4 | rng.choice([0, 0, 0, 0x20, 0x80])]) + G.rbytes(rng, n if n < 6 else rng.randint(0, 7))
+    if h:
+        s_len = rng.choice([0, 1, 3, 8, 40, 200, 255])
+        v += bytes([s_len]) + G.rbytes(rng, rng.choice([s_len, s_len, max(0, s_len - 1), 0]))
+    if k:
+        v += G.rbytes(rng, rng.randint(0, 7))
+    if rng.random() < 0.5:
+        v = v[:rng.randint(0, len(v))]            # truncated anywhere, including right after the flag byte
+    return v
+
+
+def block_storm(rng):
+    """5..12 Block1 PUTs of one body (same token) whose block numbers arrive sparse and out of order — the received-ranges
+    structure has a fixed capacity"""
+    szx = rng.choice([0, 0, 1, 2])
+    bs = 16 << szx
+    n = rng.randint(5, 12)
+    nums = rng.sample(range(0, 60, rng.choice([2, 2, 3])), n)
+    c = rng.random()
+    if c < 0.4: nums.sort(reverse=True)
+    elif c < 0.6: nums.sort()
+    out = []
+    for i, num in enumerate(nums):
+        v = num << 4 | 1 << 3 | szx
+        blk = v.to_bytes(3, "big").lstrip(b"\0") or b"\0"
+        opts = [(11, b"b"), (27, blk)]
+        if rng.random() < 0.3:
+            opts.append((60, (bs * 64).to_bytes(2, "big")))
+        out.append(G.encode("udp", 0, 3, 0x2000 + i, b"\xab\xcd", sorted(opts, key=lambda o: o[0]), G.rbytes(rng, bs)))
+    return out
+
+
 def targeted(rng, scen):
     """a datagram aimed at the state the scenario set up: matching token/mid/paths, hostile option values"""
     tok = rng.choice([b"\xab\xcd", b"\xab\xcd", b"", G.rbytes(rng, rng.randint(1, 8))])
@@ -95,7 +137,7 @@ def targeted(rng, scen):
         code = rng.choice([69, 68, 65, 95, 132, 128, 160, 0, 0, 224, 1, rng.randint(0, 255)])
         opts = []
         for num in rng.sample([6, 4, 12, 14, 23, 27, 28, 60, 252, 258, 9], rng.randint(0, 4)):
-            opts.append((num, uint() if num != 9 else G.rbytes(rng, rng.randint(0, 12))))
+            opts.append((num, uint() if num != 9 else oscore_value(rng)))
     else:
         code = rng.choice([1, 2, 3, 4, 5, 6, 7, 0, 31, rng.randint(0, 255)])
         path = rng.choice([b"r", b"o", b"b", b"b", b".well-known", b"x"])
@@ -103,7 +145,7 @@ def targeted(rng, scen):
         if path == b".well-known":
             opts.append((11, b"core"))
         for num in rng.sample([6, 4, 1, 5, 12, 14, 17, 19, 23, 27, 28, 31, 60, 252, 258, 292, 9, 15, 35, 39, 16, 3, 7], rng.randint(0, 5)):
-            opts.append((num, uint() if num not in (9, 15, 35, 39, 3) else G.rbytes(rng, rng.randint(0, 12))))
+            opts.append((num, oscore_value(rng) if num == 9 else uint() if num not in (15, 35, 39, 3) else G.rbytes(rng, rng.randint(0, 12))))
         if rng.random() < 0.15:
             opts.append((rng.choice([2, 10, 13, 29, 65001, 65535]), G.rbytes(rng, rng.randint(0, 4))))   # unknown, some critical
     if scen != "cli" and rng.random() < 0.25:
@@ -134,6 +176,9 @@ def gen_sequences(ctx, n):
     out = []
     for i in range(n):
         scen = rng.choice(SCENARIOS)
+        if scen != "cli" and rng.random() < 0.12:
+            out.append("hseq %s %d %s %s" % (scen, rng.choice([0, 7]), rng.choice(["same", "other"]), ";".join(hx(b) for b in block_storm(rng))))
+            continue
         ds = []
         for _ in range(rng.choice([1, 2, 3, 5, 8])):
             c = rng.random()
